@@ -573,6 +573,9 @@ class Interp:
                     env.set(a.asname, ClassRef(a.name))
         elif isinstance(s, ast.Import):
             pass
+        elif isinstance(s, ast.Nonlocal):
+            # assignments to these names go to the enclosing function's environment
+            env.nonlocals = set(getattr(env, 'nonlocals', ())) | set(s.names)
         else:
             raise AnalysisError(f'interpreter: unmodelled statement `{norm(s)[:80]}` (line {s.lineno})')
 
@@ -1047,10 +1050,27 @@ class Interp:
                     if len(args) > 1:
                         return args[1]
                     raise Raised('StopIteration', e)
+            if n in ('attrgetter', 'itemgetter') and not self._global(n) and len(args) == 1 and not kwargs:
+                key = args[0]
+                if n == 'itemgetter':
+                    return lambda x, _k=key: x[_k]
+                return lambda x, _k=key: (x.attrs[_k] if isinstance(x, Obj) and _k in x.attrs else getattr(x, _k))
+            if n == 'groupby' and not self._global(n):
+                import itertools as _it
+                return [(k_, list(g_)) for k_, g_ in _it.groupby(list(args[0]), key=kwargs.get('key', args[1] if len(args) > 1 else None))]
             if n in ('list', 'tuple', 'set', 'sorted', 'dict', 'str', 'int', 'bool', 'any', 'all', 'enumerate', 'zip', 'range', 'max', 'min', 'id', 'map'):
                 if n == 'map':
                     f = args[0]
                     f = (lambda x, _m=f: getattr(x, _m.attr)()) if isinstance(f, BoundMethod) else f
+                    if isinstance(f, ClassRef):
+                        # map(<class>, items): one constructor call per item - through the rule's stand-in for that class when there is one
+                        last = f.name.split('.')[-1]
+                        stub = self.stubs.get(f.name) or self.stubs.get(last)
+                        if callable(stub):
+                            return [stub(self, x) for x in args[1]]
+                        if not last[:1].isupper():
+                            raise AnalysisError(f'interpreter: map over the library function `{f.name}` is not modelled')
+                        return [Obj(last, _args=(x,)) for x in args[1]]
                     return [f(x) for x in args[1]]
                 if n == 'enumerate':
                     return list(enumerate(*args))
@@ -1072,6 +1092,9 @@ class Interp:
             base = f.base
             if isinstance(e.func, ast.Attribute) and isinstance(e.func.value, ast.Name) and e.func.value.id == 'str' and not env.has('str') and f.attr == 'maketrans':
                 return str.maketrans(*args)
+            if isinstance(e.func, ast.Attribute) and isinstance(e.func.value, ast.Name) and e.func.value.id == 'str' and not env.has('str') and f.attr in SAFE_METHODS[str] \
+                    and args and isinstance(args[0], str):
+                return getattr(str, f.attr)(*args, **kwargs)        # the unbound form: str.lower(text)
             if getattr(type(base), '_interp_safe', False) and hasattr(base, f.attr):
                 return getattr(base, f.attr)(*args, **kwargs)        # a stand-in object written by the rule itself
             if isinstance(base, re.Pattern) and f.attr in ('sub', 'subn'):
@@ -1195,6 +1218,13 @@ class Env:
         return self.outer.get(k)
 
     def set(self, k, v):
+        if k in getattr(self, 'nonlocals', ()) and k not in self.vars:
+            e = self.outer
+            while e is not None:
+                if k in e.vars:
+                    e.vars[k] = v
+                    return
+                e = e.outer
         self.vars[k] = v
 
 
